@@ -162,6 +162,51 @@ def engine_half(ctx, res):
                                      what="remote completion delivered twice + stale update: %d complex events (want 1), %d action "
                                           "executions (want %d), %d active runs (want 0)" % (ncx, nex, want_ex, len(engine.decider.all_runs())),
                                      detail=None))
+    # a later subscriber of the producer refuses a complex event (e.g. a bounded queue downstream is full) and the
+    # caller carries on: still one complex event and one execution per finished run
+    for stream in ([1, 2], [1, 1, 2], [1, 2, 1, 2], [1, 1, 2, 1, 2]):
+        for armed in ([0], [1], [0, 1], [0, 2]):
+            nrun, ncx, nex = producer_refuse_case(stream, armed)
+            res.note_case(("producer-refuse", tuple(stream), tuple(armed)), True)
+            if ncx != nrun or nex != nrun:
+                res.failures.append(dict(signature="second-complex-event-after-refusal", case=dict(producer_refuse=True, stream=stream, armed=armed),
+                                         what="a later producer subscriber refused notification(s) %s and the caller carried on: %d finished "
+                                              "runs, %d complex events handed to the forwarder, %d action executions" % (armed, nrun, ncx, nex),
+                                         detail=None))
+
+
+def producer_refuse_case(stream, armed):
+    """one engine; a LATER subscriber of the producer (after the forwarder and the receiver) refuses the notifications
+    numbered in `armed`; the caller of engine.update() carries on.  Returns (completed runs, complex events handed to
+    the subscribers before it, action executions)."""
+    import sim_engine as SE
+    import sim_decider as SD
+    from bobocep.cep.engine.producer.pubsub import BoboProducerSubscriber
+    p = G.pattern(1, G.assign(["R", "R"], 0, "distinct"))
+    ed = dict(cfg=dict(phen=[(1, [p])], maxcache=50, idbase=1000), tr=0, td=0, tp=0, tf=0, early=True, local_only=True,
+              datagen=[], act=[(1, (1, True, 5))])
+    engine, handler, log = SE.make_engine(ed)
+
+    class Boom(BoboProducerSubscriber):
+        n = 0
+
+        def on_producer_update(self, event, local):
+            i, Boom.n = Boom.n, Boom.n + 1
+            if i in armed:
+                raise SD.SubscriberRefused("later producer subscriber refuses notification %d" % i)
+    engine.producer.subscribe(Boom())
+
+    def upd():
+        try:
+            engine.update()
+        except SD.SubscriberRefused:
+            pass
+    for d in stream:
+        engine.receiver.add_data(d)
+        upd()
+    for _ in range(8):
+        upd()
+    return len(log["completed"]), len(log["complex"]), len(log["execs"])
 
 
 def tcp_case(sc):
@@ -314,6 +359,21 @@ def replay(obj):
         print("scenario (real engines + real BoboDistributedTCP, link faults):", sc["steps"])
         print("oracle  :", fail or "every finished run was finished once, everywhere")
         return 1 if fail else 0
+    if case.get("producer_refuse"):
+        nrun, ncx, nex = producer_refuse_case(case["stream"], case["armed"])
+        print("finished runs %d, complex events handed to the forwarder %d, action executions %d" % (nrun, ncx, nex))
+        return 0 if ncx == nrun == nex else 1
+    if "ed" in case:
+        import sim_engine as SE
+        ed = case["ed"]
+        ed["cfg"], _ = pC12.norm_case(dict(cfg=ed["cfg"], ops=[]))
+        ed["act"] = [(k, tuple(a)) for k, a in ed["act"]]
+        ops = [pC12.norm_case(dict(cfg=dict(phen=[]), ops=[o]))[1][0] if o[0] == "remote" else tuple(o) for o in case["ops"]]
+        _, engine, _h, log = SE.run_ops(ed, ops)
+        want_ex = 0 if ed["local_only"] else 1
+        print("complex events %d (want 1), executions %d (want %d), active runs %d (want 0)"
+              % (len(log["complex"]), len(log["execs"]), want_ex, len(engine.decider.all_runs())))
+        return 0 if (len(log["complex"]), len(log["execs"]), len(engine.decider.all_runs())) == (1, want_ex, 0) else 1
     cfg, ops = pC12.norm_case(case)
     out, _, fail = work((cfg, ops))
     model, _ = common.coq_eval("C05r", SD.IMPORTS, "run_decider %s" % SD.case_coq(cfg, ops))
